@@ -3,6 +3,7 @@ package main
 import (
 	"fmt"
 	"go/token"
+	"go/types"
 	"sort"
 	"strings"
 
@@ -12,6 +13,8 @@ import (
 func init() { register("C15", propC15) }
 
 func propC15(c *Ctx) propInfo {
+	c.walletConstants() // the v5r1 wallet id enters the address
+	c.confirmationReach()
 	c.errflow(excC15E2, "wallet")
 	c.floor("E2.R-drop", 100)
 	c.walletConfigFlow()
@@ -725,4 +728,38 @@ func (c *Ctx) subWalletSiblings(R string) {
 		}
 	}
 	c.check(same, R, "v3, v4 and highload compute the sub-wallet id identically", 0, strings.Join(trees, " | "), "the constructors of v3, v4 and highload wallets no longer compute the sub-wallet id by the same expression: "+strings.Join(trees, " | ")+" (an explicitly requested id must be used as is; only the default depends on the workchain)")
+}
+
+// confirmationReach: the seqno polling loop of RawSendV2 must be reachable for every version that
+// has a seqno: the only version test on the way to it excludes the highload wallet (which has no
+// seqno) - it is not a test FOR one version.
+func (c *Ctx) confirmationReach() {
+	const R = "E15.send-pipeline"
+	f := c.fn("wallet", "Wallet.RawSendV2")
+	if f == nil {
+		return
+	}
+	for _, cl := range callsTo(f, modPath+"/wallet.blockchain.GetSeqno") {
+		if !inLoop(cl.Block()) {
+			continue
+		}
+		okv := true
+		desc := "no version test on the way"
+		for _, ft := range factsAt(f, cl.Block()) {
+			bo, ok := ft.Cond.(*ssa.BinOp)
+			if !ok || (bo.Op != token.EQL && bo.Op != token.NEQ) {
+				continue
+			}
+			n, ok := stripConv(bo.X).Type().(*types.Named)
+			if !ok || n.Obj().Name() != "Version" {
+				continue
+			}
+			eq := (bo.Op == token.EQL) == ft.Truth
+			desc = fmt.Sprintf("version %s %s", map[bool]string{true: "==", false: "!="}[eq], shape(bo.Y, 1))
+			if eq {
+				okv = false
+			}
+		}
+		c.check(okv, R, "the confirmation loop is reachable for every seqno wallet", cl.Pos(), desc, "RawSendV2 reaches the seqno polling loop only when the wallet version EQUALS one particular version ("+desc+"): for every other version a send that asks for confirmation fails (or, for the highload wallet, polls a seqno it does not have)")
+	}
 }
